@@ -93,4 +93,18 @@ func vReadAll(l CommitLog, from int64, max int) []vMsg {
 	return out
 }
 
-func vCtx() context.Context { return context.Background() }
+var vCtxShared context.Context
+
+// vCtx returns a context with a deadline: a read that has to wait (missing
+// data) ends with an error instead of blocking the harness. Under symgo the
+// deadline is virtual and fires only when every goroutine is blocked.
+func vCtx() context.Context {
+	if vCtxShared == nil {
+		d := 300 * time.Millisecond
+		if vSymbolic() {
+			d = time.Hour
+		}
+		vCtxShared, _ = context.WithTimeout(context.Background(), d)
+	}
+	return vCtxShared
+}
